@@ -356,8 +356,7 @@ def desugar(text, rules, counts):
             text, c = _r_qclosure(text)
         else:
             raise SpliceError("unknown desugaring " + r)
-        if c == 0:
-            raise SpliceError("desugaring %s listed but no site found" % r)
+        # a listed desugaring without a site is not an error: the list says what MAY be rewritten in this function
         counts[r] = counts.get(r, 0) + c
     return text
 
